@@ -281,6 +281,159 @@ func ruleWasmTimeStep(c *Check, w *World, tb *TB, iv *IV, rule string, regs map[
 	}
 }
 
+// ruleWasmDerivation (R20.2, shared with C01 in the js/wasm configuration): the binding's derivation satisfies
+// the native RFC 4226 composition rules. Returns the derivation function.
+func ruleWasmDerivation(c *Check, w *World, tb *TB, iv *IV, ef *Effects, sent map[string]bool, pfx string) (*ssa.Function, derivRoles) {
+	// ---- R20.2 derivation agrees with native ----------------------------------------------------
+	der := w.Func(OtpPath, "DeriveRFC4226Wasm")
+	if der == nil {
+		c.Fatal("anchor not found: DeriveRFC4226Wasm")
+		return nil, derivRoles{}
+	}
+	dfn := FuncName(der)
+	roles := derivRoles{-1, -1, -1, -1}
+	for i, p := range der.Params {
+		switch t := p.Type().Underlying().(type) {
+		case *types.Slice:
+			roles.Key = i
+		case *types.Basic:
+			switch {
+			case t.Kind() == types.Uint64:
+				roles.Counter = i
+			case t.Kind() == types.Int:
+				roles.Digits = i
+			case t.Kind() == types.Uint8:
+				roles.Algo = i
+			}
+		}
+	}
+	if roles.Key < 0 || roles.Counter < 0 || roles.Digits < 0 || roles.Algo < 0 {
+		c.Fatal("DeriveRFC4226Wasm: cannot identify key/counter/digits/algorithm parameters")
+		return nil, derivRoles{}
+	}
+	rt := roles.terms(der)
+	var powFn *ssa.Function
+	repeatPad := false
+	rt.AltCode = func(alt *Term) (*Term, *Term, bool) {
+		// s   or   string(padding) + s   with s = strconv.FormatUint(number, 10) and len(padding) = digits - len(s)
+		s := alt
+		if alt.Op == "bin" && alt.Sym == "+" {
+			pad := alt.Args[0]
+			s = alt.Args[1]
+			L := "len(" + s.String() + ")"
+			okPad := pad.Op == "conv" && pad.Sym == "string" && pad.Args[0].Op == "makeslice" && shortBy(nil, pad.Args[0].Args[0], L, rt.Digits)
+			if pad.Op == "call" && pad.Sym == "strings.Repeat" && len(pad.Args) == 2 && pad.Args[0].IsConst() && pad.Args[0].Sym == `"0"` && shortBy(nil, pad.Args[1], L, rt.Digits) {
+				okPad = true
+				repeatPad = true
+			}
+			if !okPad {
+				return nil, nil, false
+			}
+		}
+		if s.Op != "call" || s.Sym != "strconv.FormatUint" || !s.Args[1].IsConst() || s.Args[1].Sym != "10" {
+			return nil, nil, false
+		}
+		return s.Args[0], &Term{Op: "raw", str: rt.Digits}, true
+	}
+	rt.ModOK = func(mod, table *Term) string {
+		for _, a := range mod.Alts() {
+			switch {
+			case a.String() == table.String():
+			case a.Op == "call" && len(a.Args) == 1 && a.Args[0].String() == rt.Digits:
+				cl, ok := a.Val.(*ssa.Call)
+				if !ok || cl.Call.StaticCallee() == nil {
+					return "unknown modulus " + clip(a.String(), 120)
+				}
+				powFn = cl.Call.StaticCallee()
+				if why := checkPow10(tb, powFn); why != "" {
+					return "the computed modulus for long codes is not 10^digits: " + why
+				}
+			default:
+				return "the modulus is " + clip(a.String(), 160) + ", neither the native table entry nor 10^digits"
+			}
+		}
+		return ""
+	}
+	pipe := checkHOTPDerivation(c, w, tb, iv, ef, pfx+"", der, rt, sent, 1, 10)
+	if pipe != nil && pipe.modT != nil {
+		checkModTable(c, w, pfx+".1", strings.TrimPrefix(pipe.modT.Args[0].Sym, "otp."), 1, 10) // entry 10 is the native side's modulus for 10 digits
+	}
+	// the computed modulus is only used for supported lengths (native refuses everything outside 1..10)
+	if powFn != nil {
+		EachInstr(der, func(in ssa.Instruction) {
+			if cl, ok := in.(*ssa.Call); ok && cl.Call.StaticCallee() == powFn {
+				checkIndexGate(c, w, iv, pfx+".2", dfn, "digits-gate@"+powFn.Name(), cl.Call.Args[0], in, 1, 10, "the code length")
+			}
+		})
+	}
+	// the padded form is returned exactly when the rendered number is shorter than the requested length
+	okCond := false
+	EachInstr(der, func(in ssa.Instruction) {
+		if iff, ok := in.(*ssa.If); ok {
+			t := tb.Of(iff.Cond)
+			var L string
+			t.Walk(func(x *Term) bool {
+				if x.Op == "len" && x.Args[0].Op == "call" && x.Args[0].Sym == "strconv.FormatUint" {
+					L = x.String()
+					return false
+				}
+				return true
+			})
+			if L != "" && shortBy(t, nil, L, rt.Digits) {
+				okCond = true
+			}
+		}
+	})
+	c.Decide(okCond, pfx+".8", dfn, "pad-condition", "padding is applied exactly when len(number) < digits", "the padding is not conditioned on len(number) < digits", w.Pos(der.Pos()))
+	// left padding of the rendered number: only '0' is stored into the padding
+	okPadVal, nPad := true, 0
+	EachInstr(der, func(in ssa.Instruction) {
+		if st, ok := in.(*ssa.Store); ok {
+			if ia, ok := st.Addr.(*ssa.IndexAddr); ok {
+				if _, isMk := ia.X.(*ssa.MakeSlice); isMk {
+					nPad++
+					if k, ok := constInt(st.Val); !ok || k.Int64() != '0' {
+						okPadVal = false
+					}
+				}
+			}
+		}
+	})
+	c.Decide(okPadVal && (nPad > 0 || repeatPad), pfx+".8", dfn, "pad-character", "short numbers are left-padded with the character '0' only", "the padding in front of a short number is not the character '0'", w.Pos(der.Pos()))
+	// the number handed to FormatUint is the truncated value: same truncate function as native
+	gen := w.Func(OtpPath, "GenerateHOTP")
+	if gen != nil {
+		if nd := derivationsFrom(w, gen); len(nd) == 1 {
+			shared := false
+			for f := range w.Reachable(nd[0]) {
+				if w.Reachable(der)[f] && f.Name() != "init" && f != der && f != nd[0] && fnPkgPath(f) == OtpPath && len(f.Params) == 2 && f.Signature.Results().Len() == 1 {
+					if b, ok := f.Signature.Results().At(0).Type().Underlying().(*types.Basic); ok && b.Kind() == types.Uint32 {
+						shared = true
+					}
+				}
+			}
+			c.Decide(shared, pfx+".7", dfn, "shared-truncation", "the js/wasm derivation uses the same dynamic-truncation function as the native one", "the js/wasm derivation does not share the native dynamic-truncation function", w.Pos(der.Pos()))
+		}
+	}
+
+	return der, roles
+}
+
+// ruleWasmWindow (shared with C03/C04 in the js/wasm configuration): the binding's validate function walks the
+// native window (HOTP: steps below zero skipped; TOTP: modulo 2^64).
+func ruleWasmWindow(c *Check, w *World, tb *TB, iv *IV, pfx, name string, needGuard bool) {
+	if w.Cfg.Name != CfgWasm.Name || w.SPkgs[WasmPath] == nil {
+		return
+	}
+	f := jsRegistrations(w, tb)[name]
+	vw := w.Func(OtpPath, "ValidateOTPWasm")
+	if f == nil || vw == nil {
+		c.Unk(pfx+".2", "wasm."+name, "window-loop", "the binding's "+name+" (or its validator) was not found", "")
+		return
+	}
+	analyseWindow(c, w, tb, iv, pfx, f, func(cl *ssa.Call) bool { return cl.Call.StaticCallee() == vw }, "", needGuard)
+}
+
 func runC20(c *Check, w *World) {
 	if w.Cfg.Name != CfgWasm.Name {
 		return
@@ -332,138 +485,10 @@ func runC20(c *Check, w *World) {
 		c.Decide(regs[n] != nil, "R20.1", "wasm.registerFunctions", "registered:"+n, "documented global "+n+" is registered", "the documented global function "+n+" is not registered", "")
 	}
 
-	// ---- R20.2 derivation agrees with native ----------------------------------------------------
-	der := w.Func(OtpPath, "DeriveRFC4226Wasm")
+	der, roles := ruleWasmDerivation(c, w, tb, iv, ef, sent, "R20.2")
 	if der == nil {
-		c.Fatal("anchor not found: DeriveRFC4226Wasm")
 		return
 	}
-	dfn := FuncName(der)
-	roles := derivRoles{-1, -1, -1, -1}
-	for i, p := range der.Params {
-		switch t := p.Type().Underlying().(type) {
-		case *types.Slice:
-			roles.Key = i
-		case *types.Basic:
-			switch {
-			case t.Kind() == types.Uint64:
-				roles.Counter = i
-			case t.Kind() == types.Int:
-				roles.Digits = i
-			case t.Kind() == types.Uint8:
-				roles.Algo = i
-			}
-		}
-	}
-	if roles.Key < 0 || roles.Counter < 0 || roles.Digits < 0 || roles.Algo < 0 {
-		c.Fatal("DeriveRFC4226Wasm: cannot identify key/counter/digits/algorithm parameters")
-		return
-	}
-	rt := roles.terms(der)
-	var powFn *ssa.Function
-	repeatPad := false
-	rt.AltCode = func(alt *Term) (*Term, *Term, bool) {
-		// s   or   string(padding) + s   with s = strconv.FormatUint(number, 10) and len(padding) = digits - len(s)
-		s := alt
-		if alt.Op == "bin" && alt.Sym == "+" {
-			pad := alt.Args[0]
-			s = alt.Args[1]
-			L := "len(" + s.String() + ")"
-			okPad := pad.Op == "conv" && pad.Sym == "string" && pad.Args[0].Op == "makeslice" && shortBy(nil, pad.Args[0].Args[0], L, rt.Digits)
-			if pad.Op == "call" && pad.Sym == "strings.Repeat" && len(pad.Args) == 2 && pad.Args[0].IsConst() && pad.Args[0].Sym == `"0"` && shortBy(nil, pad.Args[1], L, rt.Digits) {
-				okPad = true
-				repeatPad = true
-			}
-			if !okPad {
-				return nil, nil, false
-			}
-		}
-		if s.Op != "call" || s.Sym != "strconv.FormatUint" || !s.Args[1].IsConst() || s.Args[1].Sym != "10" {
-			return nil, nil, false
-		}
-		return s.Args[0], &Term{Op: "raw", str: rt.Digits}, true
-	}
-	rt.ModOK = func(mod, table *Term) string {
-		for _, a := range mod.Alts() {
-			switch {
-			case a.String() == table.String():
-			case a.Op == "call" && len(a.Args) == 1 && a.Args[0].String() == rt.Digits:
-				cl, ok := a.Val.(*ssa.Call)
-				if !ok || cl.Call.StaticCallee() == nil {
-					return "unknown modulus " + clip(a.String(), 120)
-				}
-				powFn = cl.Call.StaticCallee()
-				if why := checkPow10(tb, powFn); why != "" {
-					return "the computed modulus for long codes is not 10^digits: " + why
-				}
-			default:
-				return "the modulus is " + clip(a.String(), 160) + ", neither the native table entry nor 10^digits"
-			}
-		}
-		return ""
-	}
-	pipe := checkHOTPDerivation(c, w, tb, iv, ef, "R20.2", der, rt, sent, 1, 10)
-	if pipe != nil && pipe.modT != nil {
-		checkModTable(c, w, "R20.2.1", strings.TrimPrefix(pipe.modT.Args[0].Sym, "otp."), 1, 9)
-	}
-	// the computed modulus is only used for supported lengths (native refuses everything outside 1..10)
-	if powFn != nil {
-		EachInstr(der, func(in ssa.Instruction) {
-			if cl, ok := in.(*ssa.Call); ok && cl.Call.StaticCallee() == powFn {
-				checkIndexGate(c, w, iv, "R20.2.2", dfn, "digits-gate@"+powFn.Name(), cl.Call.Args[0], in, 1, 10, "the code length")
-			}
-		})
-	}
-	// the padded form is returned exactly when the rendered number is shorter than the requested length
-	okCond := false
-	EachInstr(der, func(in ssa.Instruction) {
-		if iff, ok := in.(*ssa.If); ok {
-			t := tb.Of(iff.Cond)
-			var L string
-			t.Walk(func(x *Term) bool {
-				if x.Op == "len" && x.Args[0].Op == "call" && x.Args[0].Sym == "strconv.FormatUint" {
-					L = x.String()
-					return false
-				}
-				return true
-			})
-			if L != "" && shortBy(t, nil, L, rt.Digits) {
-				okCond = true
-			}
-		}
-	})
-	c.Decide(okCond, "R20.2.8", dfn, "pad-condition", "padding is applied exactly when len(number) < digits", "the padding is not conditioned on len(number) < digits", w.Pos(der.Pos()))
-	// left padding of the rendered number: only '0' is stored into the padding
-	okPadVal, nPad := true, 0
-	EachInstr(der, func(in ssa.Instruction) {
-		if st, ok := in.(*ssa.Store); ok {
-			if ia, ok := st.Addr.(*ssa.IndexAddr); ok {
-				if _, isMk := ia.X.(*ssa.MakeSlice); isMk {
-					nPad++
-					if k, ok := constInt(st.Val); !ok || k.Int64() != '0' {
-						okPadVal = false
-					}
-				}
-			}
-		}
-	})
-	c.Decide(okPadVal && (nPad > 0 || repeatPad), "R20.2.8", dfn, "pad-character", "short numbers are left-padded with the character '0' only", "the padding in front of a short number is not the character '0'", w.Pos(der.Pos()))
-	// the number handed to FormatUint is the truncated value: same truncate function as native
-	gen := w.Func(OtpPath, "GenerateHOTP")
-	if gen != nil {
-		if nd := derivationsFrom(w, gen); len(nd) == 1 {
-			shared := false
-			for f := range w.Reachable(nd[0]) {
-				if w.Reachable(der)[f] && f.Name() != "init" && f != der && f != nd[0] && fnPkgPath(f) == OtpPath && len(f.Params) == 2 && f.Signature.Results().Len() == 1 {
-					if b, ok := f.Signature.Results().At(0).Type().Underlying().(*types.Basic); ok && b.Kind() == types.Uint32 {
-						shared = true
-					}
-				}
-			}
-			c.Decide(shared, "R20.2.7", dfn, "shared-truncation", "the js/wasm derivation uses the same dynamic-truncation function as the native one", "the js/wasm derivation does not share the native dynamic-truncation function", w.Pos(der.Pos()))
-		}
-	}
-
 	checkDigitsInt(c, w, tb, "R20.4")
 	// ---- R20.3 windows agree -------------------------------------------------------------------------
 	vw := w.Func(OtpPath, "ValidateOTPWasm")
